@@ -61,6 +61,8 @@ func c03Expect(c *pkt.Case, lay *pkt.Layout) *pkt.Fields {
 				f.SigNonce = si.Nonce
 				f.SigTime = si.SigTime
 				f.SigSeq = si.SeqNum
+			} else {
+				f.NotBefore, f.NotAfter = si.NotBefore, si.NotAfter
 			}
 			if lay != nil && lay.HasSig {
 				f.HasSigValue = len(lay.SigValue) > 0
@@ -161,6 +163,12 @@ func c03Cuts(r *rand.Rand, b []byte, lay *pkt.Layout, thorough bool) [][]int {
 }
 
 func c03Run(c *h.Ctx) {
+	// half of the batches run as a process whose local time zone is not UTC (signers read
+	// time.Now(), whose location is time.Local): encoded times must not depend on the zone
+	if c.Batch%2 == 1 {
+		time.Local = time.FixedZone("verif+0530", (5*60+30)*60)
+		c.Note("local_time_zone", "UTC+05:30 in odd batches, UTC in even batches")
+	}
 	r := c.Rng("c03")
 	n := c.Pick(2000, 9000)
 	pkt.GetKeys()
